@@ -67,6 +67,10 @@ class Run(object):
 def load_findings(prop=None):
     with open(os.path.join(VERIF, 'known_findings.json')) as f:
         data = json.load(f)
+    extra = os.environ.get('VERIF_EXTRA_FINDINGS')   # development only: proposed entries not yet listed by the lead
+    if extra and os.path.exists(extra):
+        with open(extra) as f:
+            data['findings'] = data['findings'] + json.load(f)['findings']
     out = [e for e in data['findings'] if prop is None or e['property'] == prop]
     return out
 
